@@ -33,6 +33,8 @@ from harness.world.server import World
 
 SCRIPTS = NORMAL_SCRIPTS + UNSPENDABLE_SCRIPTS
 
+HONOURS_DEADLINE = True      # main loops stop generating when common.out_of_time()
+
 
 class Hist:
     def __init__(self, res, seed, idx, tier, forward=False, reorgs=False):
